@@ -19,6 +19,8 @@ import (
 	"github.com/chain4energy/c4e-chain/x/cfevesting"
 	vesttypes "github.com/chain4energy/c4e-chain/x/cfevesting/types"
 	sdk "github.com/cosmos/cosmos-sdk/types"
+	authtypes "github.com/cosmos/cosmos-sdk/x/auth/types"
+	banktypes "github.com/cosmos/cosmos-sdk/x/bank/types"
 )
 
 func init() {
@@ -147,6 +149,16 @@ func runC12(c *fw.Case) {
 			c12CompareBlock(c, r, "after BeginBlock")
 		}
 		r.traffic(c, 3)
+		if exportAt[b] && c.R.Intn(2) == 0 {
+			// somebody tries to pay a module account of the custom modules in the very block
+			// after which the state is exported (coins that reach the distributor's main account
+			// by a transfer are only booked by the next BeginBlock)
+			names := []string{disttypes.DistributorMainAccount, disttypes.GreenEnergyBoosterCollector, disttypes.GovernanceBoosterCollector, minttypes.ModuleName, vesttypes.ModuleName}
+			to := authtypes.NewModuleAddress(names[c.R.Intn(len(names))])
+			from := r.e.owners[c.R.Intn(len(r.e.owners))]
+			r.deliver(from, nil, banktypes.NewMsgSend(from.Addr, to, sdk.NewCoins(sdk.NewCoin("uc4e", sdk.NewInt(int64(1+c.R.Intn(100000)))))))
+			c.Count("transfers_to_module_accounts_before_export", 1)
+		}
 		if len(r.followers) > 0 {
 			for i := 1; i < len(r.lastTx); i++ {
 				if len(r.lastTx) > 0 && r.lastTx[i].Code != r.lastTx[0].Code {
